@@ -67,14 +67,17 @@ CLAIMED.update({
                  "is drained), not proved. A real-scheduler shutdown-race test covers callers queued on the broker's mutex (stalled refusal notice "
                  "inside the admission section, shutdown and a late attempt behind it): once Do has returned nothing is attached. Over the fine-grained "
                  "proxyOut model: in ANY state, once cancelled, the reader goroutine and the forwarding loop can each leave within two of their own steps; "
-                 "the pre-repair reader is refuted (stuck for ever after flood + stall + cancel).",
+                 "the pre-repair reader is refuted (stuck for ever after flood + stall + cancel). Last hop: the closure / gone notices reach the TERMINAL "
+                 "through the real Shell also while the operator has muted a flood.",
          "note": TB + "goroutine/channel behaviour of proxyOut's reader is exercised, not modelled.",
          "technique": "Coq proof (invariants + per-step characterisations) + hook-serialised correspondence judged by vm_compute + leak observation"},
  "C02": {"text": "Coq theorems for every queue, writer kind and failure point: lines written (each + exactly one newline) followed by lines still "
                  "queued = the queued lines in order (gap-free, duplicate-free, unmodified; undelivered lines stay for the next shell); only the "
                  "last written line can lack its delivery record and only because its own write/flush failed and ended the shell; writes go only "
                  "to the input-slot holder. " + BRK + "Exhaustive writer scripts (4 kinds x failure points), select-race cases, random histories. "
-                 "'Promptly' = the flush is called after every write before the next line is taken (observed on every case).",
+                 "'Promptly' = the flush is called after every write before the next line is taken (observed on every case). Operator side (lib/opshell, "
+                 "upstream of the broker): the real Shell.insert (Ctrl+I) with sources up to 100000 B must put exactly ONE intact line on the line channel; "
+                 "pastes of up to 3000 lines through the real Shell.Do into a full 1024-deep channel must come out complete and in order.",
          "note": TB + "net/http's FlushError pushing bytes to the socket is outside; Go's select choice is explored, not modelled.",
          "technique": "Coq proof (induction over the delivery loop) + correspondence with scripted writers judged by vm_compute"},
  "C03": {"text": "Coq theorems: a read of the attached output stream is displayed exactly once, unmodified, before any closure notice of the step "
@@ -93,7 +96,8 @@ CLAIMED.update({
                  "captured through a mirror of the real slog.NewJSONHandler(w, nil) (level filtering as in the program); the monitor also checks "
                  "connect/disconnect records per stream and that the JSON output is one parsable object per line. PARTIAL: reconstruction of a "
                  "whole session from the log is checked by the monitor, not proved. Stalled-terminal and cancelled-flood cases: nothing undelivered is logged "
-                 "(theorem c11_queue_logged_is_delivered over the fine-grained proxyOut model, every interleaving).",
+                 "(theorem c11_queue_logged_is_delivered over the fine-grained proxyOut model, every interleaving); attempts whose client has already hung up "
+                 "(request context done before admission) still get their records.",
          "note": TB + "slog's JSON escaping is standard library (framing checked, escaping not modelled).",
          "technique": "Coq proof (per-step characterisations) + correspondence with a mirrored JSON handler judged by vm_compute"},
 })
@@ -107,7 +111,8 @@ CLAIMED["C19"] = {"text": "Coq theorems over the mute machine for EVERY timed ev
                  "(~6600 per quick run, incl. backlogs queued in the 1024-deep operator channel while the terminal is busy), compared per instant with "
                  "the model and with the statement's monitor, in Coq; plus Ctrl+O as a REAL key press through goxterm's key handling (which holds the "
                  "terminal's lock) while output is being written - forced unlucky schedule and free floods - after which the mute must be announced and "
-                 "a status line written (this found a genuine dead-lock, repaired by fix: 3f1e604).",
+                 "a status line written (this found a genuine dead-lock, repaired by fix: 3f1e604); Ctrl+J printouts while muted; a real-time case with "
+                 "the write lock held across the timer's due time.",
          "note": TB + "virtual clock of synctest = model clock; goxterm rendering is outside; lock order is exercised by the key-press stream, not modelled.",
          "technique": "Coq proof (invariant + closed-form case analysis with lia) + virtual-time differential correspondence judged by vm_compute"}
 CLAIMED["C10"] = {"text": "Coq theorems: with a constant format of plain verbs (one operand per verb) the output is the literal text with every operand "
@@ -128,7 +133,8 @@ CLAIMED["C09"] = {"text": "Coq theorem for EVERY decoded request path (any bytes
                  "(incl. half-closing clients and cancelled request contexts, which must still be reported) over "
                  "real TLS x 3 modes (tagged tree files named like the endpoints, canaries just outside incl. a sibling extending the root's name; "
                  "plain/encoded/double-encoded dot segments, encoded slashes/backslashes, NUL, 5000-byte and 40-level paths, POST/PUT to endpoints) "
-                 "judged in Coq against the cleaned-path model (content only of the file the cleaned path names; never a canary; notices).",
+                 "judged in Coq against the cleaned-path model (content only of the file the cleaned path names; never a canary; notices free of raw control "
+                 "bytes that decode to the request's path); overlapping downloads of a 3 MiB file by 12 clients must each return exactly the file.",
          "note": TB + "net/http parser, ServeMux, FileServer, http.Dir are standard library (modelled by their contract); symlinks out of the tree are followed by design.",
          "technique": "Coq proof (lexical confinement of the cleaned path) + canary-based differential test judged by vm_compute"}
 CLAIMED["C07"] = {"text": "Coq theorems: the callback address is chosen by the stated precedence (one theorem per branch, together total); with the default "
@@ -137,6 +143,7 @@ CLAIMED["C07"] = {"text": "Coq theorems: the callback address is chosen by the s
                  "per quick run against the real Server (direct handler calls with crafted Host/SNI/c2 in query, POST form and header; raw HTTP/1.0 "
                  "over TLS; listen port 443; a template file edited, broken, removed and re-created between requests, also with size and mtime unchanged), "
                  "response compared in Coq with "
+                 "(also 160 requests served concurrently, IDs pairwise distinct, and the same under Go's race detector) "
                  "the model script for the ID found. PARTIAL for 'yields a working shell': the served script is piped to /bin/sh with real curl and a "
                  "command round-trips (behavioural test).",
          "note": TB + "text/template engine, idna.ToASCII (verdict taken from the real library), math/rand, curl, sh are environment.",
@@ -146,7 +153,8 @@ CLAIMED["C05"] = {"text": "Coq theorems (data flow / formatting): the pin positi
                  "bound port appended. PARTIAL for 'equals the hash of the key really served': on every run, for 12 configurations (6 listen forms, "
                  "callback-address sets, fresh/cached/full-chain/regenerated-underneath/expired caches, restarts, help re-printed after a shell died) a TLS client "
                  "records the leaf it is shown and Coq itself computes base64(SHA-256(SubjectPublicKeyInfo)) (Gallina SHA-256, vm_compute) and compares it "
-                 "with every advertised pin.",
+                 "with every advertised pin - incl. 72 scripts fetched CONCURRENTLY per configuration, and the one-liners made from the listen address itself "
+                 "(bound port).",
          "note": TB + "TLS presents Certificates[0]; SHA-256 collision resistance; curl's pin check (exercised in C07's run) are assumptions.",
          "technique": "Coq proof of the formatting/data-flow half + in-Coq recomputation of the pin of the observed key (validation by computation)"}
 CLAIMED["C12"] = {"text": "Coq theorems: for every sequence of broker events the listener is open iff not (-one-shell and a connected event was handled); the "
@@ -155,7 +163,9 @@ CLAIMED["C12"] = {"text": "Coq theorems: for every sequence of broker events the
                  "and that the attached shell is undisturbed is exercised: a real Server is probed with connect(2) at every stage of 12 scenarios "
                  "(/i+/o in both orders, /io; preceded by half-attached and refused attempts; traffic after the close; Do must return ErrOneShellClosed by itself); "
                  "end to end: 11 runs of the real binary with -one-shell under a pty with a real TLS /io client, one shell attached for 33 s (thorough 95 s) "
-                 "and still working, then ONE entered line must give exit status 0.",
+                 "and still working; endings by EOF, dropped connection, input side first with the upload left open, and EOF followed by a Tab insert of a "
+                 "1500-line source; then ONE entered line must give exit status 0 (known finding: a line entered within the ~0.5 s in which "
+                 "http.Server.Shutdown polls after a long-lived shell is consumed; the next line exits).",
          "note": TB + "net.Listener.Close / http.Server.Shutdown semantics are net/http's; real-time polling (up to 3 s) for 'refused'.",
          "technique": "Coq proof (watcher logic composed with the broker invariants) + real-socket scenario test judged by vm_compute"}
 CLAIMED["C13"] = {"text": "Coq theorems: with a fingerprint configured a request is sent IFF it decodes (base64, CR/LF ignored, optional sha256//) to exactly 32 "
@@ -165,7 +175,8 @@ CLAIMED["C13"] = {"text": "Coq theorems: with a fingerprint configured a request
                  "arguments (no state). Tie: 120 calls per quick run in ONE process against 8 TLS servers with generated keys and 1-3 certificate "
                  "chains, 14 fingerprint spellings, trusted and untrusted leaves; Coq recomputes SHA-256/base64 of the presented keys and predicts "
                  "whether the handler may run; directed sequences per server (TLS session resumption) and overlapping calls (a second call runs to completion "
-                 "between the first's client configuration and its connect), each judged on its own configuration; "
+                 "between the first's client configuration and its connect), each judged on its own configuration; impostor servers presenting the genuine "
+                 "certificate's name and serial with another key, called with the genuine pin right after the genuine server; "
                  "http.DefaultClient/DefaultTransport compared with their initial state after every call. PARTIAL for the "
                  "TLS mechanics (handshake, VerifyConnection ordering): environment.",
          "note": TB + "crypto/tls handshake and x509 validation are the library's; SHA-256 collision resistance assumed.",
@@ -195,7 +206,8 @@ CLAIMED["C20"] = {"text": "Coq theorems over the control-flow model of rmain for
                  "start-up step that cannot succeed gives a non-zero status naming that cause; otherwise status 0; -print-default-template succeeds "
                  "under every fault; -print-ctrl-i depends only on the log file and the Ctrl+I source. PARTIAL: tie = the real binary run in 56 "
                  "scenarios (every single fault, pairs, informational flags x three terminal situations incl. a controlling pty with stdin from "
-                 "/dev/null and no controlling terminal; exits by Ctrl+D, Ctrl+C and stdin EOF) with exit status, panic text, cause and termios "
+                 "/dev/null and no controlling terminal; exits by Ctrl+D, Ctrl+C and stdin EOF, also after sessions with 80 served scripts under GOGC=1; a "
+                 "Ctrl+I source directory with a dangling link) with exit status, panic text, cause and termios "
                  "before/after compared with the model in Coq.",
          "note": TB + "goxterm.MakeRaw/Restore, the flag package's -h, and OS error wording are environment.",
          "technique": "Coq proof (total case analysis of the start-up sequence) + real-binary pty scenarios judged by vm_compute"}
